@@ -1,8 +1,10 @@
+use std::collections::VecDeque;
 use tevec::prelude::*;
 fn main() {
-    for v in [vec![None, Some(1)], vec![None, None, Some(1), Some(1), Some(2)], vec![Some(1), Some(1), Some(2), None], vec![Some(1), Some(2)]] {
-        let first: Vec<usize> = v.titer().vsorted_unique_idx(Keep::First).collect();
-        let last: Vec<usize> = v.titer().vsorted_unique_idx(Keep::Last).collect();
-        println!("{:?}: first={:?} last={:?}", v, first, last);
-    }
+    let a: VecDeque<f64> = vec![1., 2., 3., 4.].into();
+    let b: VecDeque<f64> = vec![1., 5.].into();
+    let r: Vec<f64> = a.ts_vcov(&b, 2, None);
+    println!("VecDeque: 4 inputs, second series of 2 -> {} outputs: {:?}", r.len(), r);
+    let r2 = std::panic::catch_unwind(|| { let r: Vec<f64> = vec![1., 2., 3., 4.].ts_vcov(&vec![1., 5.], 2, None); r });
+    println!("Vec: {:?}", r2.map(|v| v.len()));
 }
